@@ -73,7 +73,8 @@ SPECS = [
          note="cut: `psl_req = PSL_REQ(did, (0, 9, 18)[self.brs], self.lri)`; result: the constructor arguments"),
     Spec(GROUP, "dep_ini_wt", F, "Initiator.activate", [], expr="atr_res.wt if atr_res.wt < 15 else 14",
          binds=[("atr_res.wt", "wt", INT)],
-         note="cut: the integer exponent of `self.rwt = 4096/13.56E6 * 2**(..)`; the float product is not translated"),
+         note="cut: the integer exponent of `self.rwt = 4096/13.56E6 * 2**(..)`; the float product is not translated - "
+              "deliberately a SUB-expression cut (not `whole=`): the enclosing assignment value is float arithmetic"),
     Spec(GROUP, "dep_ini_miu", F, "Initiator.activate", [], path=[(19, "body")], stmts=[2],
          binds=[("atr_res.lr", "lr", INT), ("self.did", "did", OPT(INT)), ("self.nad", "nad", OPT(INT))],
          stores=["self.miu"], result=["self.miu"],
@@ -145,14 +146,14 @@ SPECS = [
          stmts=[8], binds=[("self.miu", "miu", INT)], result=["send_data"],
          note="cut: `del send_data[0:self.miu]` at the end of the send loop"),
     Spec(GROUP, "dep_tgt_rtox", F, "Target.send_timeout_extension", [],
-         expr="req.data[0] & 0x3F if req.data else None", binds=[("req.data", "data", BYTES)], ret=OPT(INT),
+         whole=True, expr="req.data[0] & 0x3F if req.data else None", binds=[("req.data", "data", BYTES)], ret=OPT(INT),
          note="cut: the returned expression; `req.data` is the parameter `data`"),
     # ---- activate(): general bytes, NFCID3 after the 212F poll
     Spec(GROUP, "dep_ini_gbi", F, "Initiator.activate", [], stmts=[3], opaque=_OPTGETB, stores=["self.gbi"],
          result=["self.gbi"], note="cut: `self.gbi = options.get('gbi', b'')[0:48]`; `options.get` is `optgetb`"),
     Spec(GROUP, "dep_tgt_gbt", F, "Target.activate", [], stmts=[1], opaque=_OPTGETB, result=["gbt"],
          note="cut: `gbt = options.get('gbt', b'')[0:47]`; `options.get` is `optgetb`"),
-    Spec(GROUP, "dep_ini_nfcid3_212", F, "Initiator.activate", [], expr="target.sensf_res[1:9] + b'ST'",
+    Spec(GROUP, "dep_ini_nfcid3_212", F, "Initiator.activate", [], whole=True, expr="target.sensf_res[1:9] + b'ST'",
          binds=[("target.sensf_res", "sensf_res", BYTES)],
          note="cut: the NFCID3 put into the ATR_REQ after the 212F poll"),
 ]
@@ -201,11 +202,11 @@ SPECS += [
          binds=[("req.pfb.fmt", "fmt", INT)],
          note="cut: send loop, a chained response must be answered with ACK (`is not` on the int constant is `!=`)"),
     Spec(GROUP, "dep_ini_tox_test", F, "Initiator.exchange", [], path=[(4, "body")], stmts=[4],
-         expr="res.pfb.fmt == DEP_RES.TimeoutExtension", binds=_FMT_I, note="cut: the timeout extension test of the send loop"),
+         whole=True, expr="res.pfb.fmt == DEP_RES.TimeoutExtension", binds=_FMT_I, note="cut: the timeout extension test of the send loop"),
     Spec(GROUP, "dep_ini_more_test", F, "Initiator.exchange", [], stmts=[7],
-         expr="res.pfb.fmt == DEP_RES.MoreInformation", binds=_FMT_I, note="cut: the receive loop condition"),
+         whole=True, expr="res.pfb.fmt == DEP_RES.MoreInformation", binds=_FMT_I, note="cut: the receive loop condition"),
     Spec(GROUP, "dep_tgt_more_test", F, "Target.exchange", [], stmts=[6],
-         expr="req.pfb.fmt == DEP_REQ.MoreInformation", binds=[("req.pfb.fmt", "fmt", INT)],
+         whole=True, expr="req.pfb.fmt == DEP_REQ.MoreInformation", binds=[("req.pfb.fmt", "fmt", INT)],
          note="cut: the receive loop condition"),
     # ---- duplicate detection of the Target (send_dep_res_recv_dep_req), the DEP_REQ branch of the dispatch chain
     Spec(GROUP, "dep_tgt_dep_dispatch", F, "Target.send_dep_res_recv_dep_req",
@@ -439,6 +440,11 @@ MUTATIONS = [
     ("dep_dep_res_encode", "DID flag bit", "(pfb.did << 2)", "(pfb.did << 1)"),
     ("dep_tgt_dispatch", "device identifier filter dropped", "elif req.did != self.did:", "elif req.did != req.did:"),
     ("dep_tgt_dispatch", "release request treated as an unknown command", "elif type(req) == RLS_REQ:", "elif type(req) == ATR_REQ:"),
+    ("dep_ini_tox_test", "condition gains an operand", "if res.pfb.fmt == DEP_RES.TimeoutExtension:\n                for i in range(3):\n                    req = RTOX(res.data, self.did, self.nad)\n                    rwt = res.data[0] * self.rwt\n                    log.warning(\"target requested %.3f sec more time\", rwt)\n                    res = self.send_dep_req_recv_dep_res(req, rwt, timeout)\n                    if res.pfb.fmt != DEP_RES.TimeoutExtension:\n                        break\n                else:\n                    log.error(\"too many timeout extension requests\")\n                    raise nfc.clf.TimeoutError(\"timeout extension\")\n            if res.pfb.fmt == DEP_RES.PositiveAck:",
+     "if res.pfb.fmt == DEP_RES.TimeoutExtension or not send_data:\n                for i in range(3):\n                    req = RTOX(res.data, self.did, self.nad)\n                    rwt = res.data[0] * self.rwt\n                    log.warning(\"target requested %.3f sec more time\", rwt)\n                    res = self.send_dep_req_recv_dep_res(req, rwt, timeout)\n                    if res.pfb.fmt != DEP_RES.TimeoutExtension:\n                        break\n                else:\n                    log.error(\"too many timeout extension requests\")\n                    raise nfc.clf.TimeoutError(\"timeout extension\")\n            if res.pfb.fmt == DEP_RES.PositiveAck:"),
+    ("dep_ini_more_test", "loop condition gains an operand", "while res.pfb.fmt == DEP_RES.MoreInformation:", "while res.pfb.fmt == DEP_RES.MoreInformation and recv_data:"),
+    ("dep_tgt_more_test", "truthiness test changed", "while req.pfb.fmt == DEP_REQ.MoreInformation:", "while (req.pfb.fmt == DEP_REQ.MoreInformation) is True:"),
+    ("dep_tgt_rtox", "returned value gains an operand", "return req.data[0] & 0x3F if req.data else None", "return (req.data[0] & 0x3F if req.data else None) or 0"),
     ("dep_tgt_sensf", "SENSF_RES carries NFCID3 octets 1..8", "nfcid3t[0:8]", "nfcid3t[1:9]"),
     ("dep_ini_miu", "header size", "atr_res.lr-3", "atr_res.lr-2"),
     ("dep_ini_miu", "NAD octet not counted", "- int(self.nad is not None))", "- int(self.nad is None))"),
